@@ -253,6 +253,8 @@ structure Hist where
   waits : List WaitRec := []
   startAll : String := ""            -- returned | blocked | error …
   startPos : Option Nat := none      -- position of `op startall`
+  startAgain : Option Nat := none    -- position of a second StartAll (scenario `twice`)
+  taskAfterAgain : List String := [] -- task requests first seen after it
   startWiths : List Nat := []        -- positions of `op startwith <id>` (scenario `partial`: one per start event)
   answered : Bool := false
   noquiesce : Bool := false
@@ -266,6 +268,7 @@ def Hist.line (h : Hist) (pos : Nat) (ws : List String) : Hist :=
   | "op" :: "answered" :: _ => { h with answered := true }
   | "op" :: "startall" :: _ => { h with startPos := if h.startPos.isSome then h.startPos else some pos }
   | "op" :: "startwith" :: _ => { h with startWiths := h.startWiths ++ [pos] }
+  | "op" :: "startagain" :: _ => { h with startAgain := some pos }
   | "op" :: "wait" :: id :: phase :: tmo :: _ =>
     { h with waits := h.waits ++ [{ id := id.toNat?.getD 0, phase, tmo, opPos := pos, ceaseBeforeOp := !h.ceasePos.isEmpty }] }
   | "op" :: _ => h
@@ -289,7 +292,8 @@ def Hist.line (h : Hist) (pos : Nat) (ws : List String) : Hist :=
     { h with ceasePos := h.ceasePos ++ [pos],
              ceaseWithOpen := if h.ceasePos.isEmpty then h.openTasks else h.ceaseWithOpen }
   | "obs" :: "task" :: node :: occ :: _ =>
-    let h := { h with openTasks := h.openTasks ++ [s!"{node}#{occ}"] }
+    let h := { h with openTasks := h.openTasks ++ [s!"{node}#{occ}"],
+                      taskAfterAgain := if h.startAgain.isSome then h.taskAfterAgain ++ [s!"{node}#{occ}"] else h.taskAfterAgain }
     if h.ceasePos.isEmpty then h else { h with afterCease := h.afterCease ++ [s!"task {node}"] }
   | "obs" :: k :: rest =>
     if h.ceasePos.isEmpty then h else { h with afterCease := h.afterCease ++ [" ".intercalate (k :: rest)] }
@@ -319,7 +323,7 @@ def check (params lines : List String) : CaseResult := Id.run do
   -- (and scenario `prewait`: a wait issued before StartAll is not an instruction of the completion model's programs)
   -- (and scenario `partial`: start events fired one by one with StartWith, a wait in between)
   let pinned := (scen != "free" || !manyMonitors) && shape != "bnd" && shape != "subfork" && scen != "prewait"
-    && scen != "partial" && shape != "forkshort"   -- (forkshort: the forking token is consumed before its forked sibling's first trace — an order the completion model's programs never produce)
+    && scen != "partial" && scen != "twice" && shape != "forkshort"   -- (forkshort: the forking token is consumed before its forked sibling's first trace — an order the completion model's programs never produce)
   let mut explainedByLateSub := false
   if pinned then
     let ls := replay P scen 0 toks
@@ -370,6 +374,11 @@ def check (params lines : List String) : CaseResult := Id.run do
         | none => pure ()
       else r := { r with bad := s!"partial: {h.startWiths.length} startwith ops for {n} start events" :: r.bad }
     | none => r := { r with bad := "partial: no startwith op" :: r.bad }
+  -- a second StartAll starts nothing: every task is requested as often as after one StartAll
+  if scen == "twice" then
+    let again := h.taskAfterAgain.filter (fun t => (t.splitOn "#").getD 1 "" != "1")
+    if !again.isEmpty then
+      r := add r s!"second_startall_starts_tokens: after StartAll was called again {again} were requested a second time"
   let due := h.answered && !h.noquiesce
   if due && h.startAll == "blocked" then
     r := add r (if manyMonitors then s!"startall_blocks_two_starts: StartAll has not returned at quiescence ({n} start events, shape {shape})"
